@@ -264,7 +264,7 @@ func c08Run(c *Ctx) {
 		}
 	}
 	mine := func(g *gspec, extra string) bool {
-		h := fnvHash(fmt.Sprint(g.N, g.Edges, g.Place, g.Shape, g.Entry, g.Chain, g.Breaks, extra))
+		h := fnvHash(fmt.Sprint(g.N, g.Edges, g.Place, g.Shape, g.Entry, g.Chain, g.Breaks, g.EntryOnly, extra))
 		return c.N <= 1 || int(h%uint32(c.N)) == c.Shard
 	}
 	maxN := 2
@@ -333,6 +333,20 @@ func c08Run(c *Ctx) {
 									g2 := g.clone()
 									g2.Breaks[t2] = brkNoPointer
 									run(g2, nil)
+								}
+							}
+						}
+						// the entry references one at a time (an error has to come back from every position of a path
+						// item: shared parameters, parameters / status-code responses / default response of every operation)
+						if t == -1 && (entry == entPathItem || entry == entAll) && nn == 1 {
+							for pos := 1; pos <= 12; pos++ {
+								for _, mode := range []int{brkNoPointer, brkString} {
+									g := g0.clone()
+									g.Breaks = map[int]int{-1: mode}
+									g.EntryOnly = pos
+									if mine(g, "") {
+										run(g, nil)
+									}
 								}
 							}
 						}
